@@ -42,7 +42,26 @@ def chain(e):
     return list(reversed(out))
 
 
-def describe(ch):
+def resolve_local(a_, env):
+    """a filter bound to a local first (`let auth = with_rbac(..);` ... `.and(auth.clone())`) is replaced by its initialiser"""
+    for _ in range(4):
+        if a_ is None:
+            return a_
+        if a_.get("k") == "mcall" and a_["method"] == "clone" and not a_["args"]:
+            a_ = H.strip(a_["recv"])
+            continue
+        if a_.get("k") == "ref":
+            a_ = H.strip(a_["e"])
+            continue
+        nm = H.local_name(a_) if a_.get("k") == "path" else None
+        if nm is not None and env and nm in env:
+            a_ = H.strip(env[nm])
+            continue
+        break
+    return a_
+
+
+def describe(ch, env=None):
     """(method, path string, [filters as text], handler def path, index info)"""
     segs = []
     method = None
@@ -53,6 +72,8 @@ def describe(ch):
         if a is None:
             continue
         a_ = H.strip(a)
+        if m not in ("and_then", "base"):
+            a_ = resolve_local(a_, env)
         t = H.show(a_)
         if m == "and_then":
             handler = a_["res"].split(":", 1)[1] if a_.get("k") == "path" else t
@@ -96,9 +117,14 @@ def check_family(ctx, fn, cfg, family, floor, auth_prefixes, tag=""):
         if any(m == "and_then" for m, _, _ in ch):
             chains.append((s["pat"]["name"], ch, s["sp"]))
     ctx.floor("route", "route chains in %s" % fn.rsplit("::", 1)[1], len(chains), floor)
+    # single-assignment locals holding a filter (not a route): name -> initialiser
+    names = [s_["pat"]["name"] for s_ in H.lets(h["body"]) if s_["pat"]["k"] == "bind"]
+    env = {s_["pat"]["name"]: s_["init"] for s_ in H.lets(h["body"])
+           if s_["pat"]["k"] == "bind" and s_["init"] is not None and names.count(s_["pat"]["name"]) == 1
+           and not any(m == "and_then" for m, _, _ in chain(s_["init"]))}
     n_auth = 0
     for name, ch, sp in chains:
-        method, path, filters, handler, end_idx, method_idx = describe(ch)
+        method, path, filters, handler, end_idx, method_idx = describe(ch, env)
         ep = "%s %s%s" % (method, path, tag)
         key = "%s:%s" % (family, ep)
         if end_idx is None or method_idx is None or end_idx > method_idx:
